@@ -236,7 +236,10 @@ PA == P("a", AnyStr, TRUE)
 PBo == P("b", AnyInt, FALSE)
 ObjSchemas == {Obj(<<PA, PBo>>, AT, 0, NONE), Obj(<<PA, PBo>>, AF, 0, NONE), Obj(<<PA, PBo>>, AnyInt, 0, NONE), Obj(<<P("a", AnyStr, FALSE), PBo>>, AT, 1, NONE),
                Obj(<<P("a", AnyStr, FALSE), PBo>>, AT, 0, 1), Obj(<<P("a", Str(2, NONE, ""), TRUE), P("b", IntS(10, 30, FALSE, FALSE, NONE), TRUE)>>, AF, 0, NONE),
-               Obj(<<>>, AnyStr, 0, 2), Obj(<<>>, AnyInt, 1, NONE), Obj(<<P("a", Nullable(AnyStr), TRUE)>>, AT, 0, NONE), Obj(<<P("a", Nullable(AnyStr), FALSE)>>, AF, 0, NONE),
+               Obj(<<>>, AnyStr, 0, 2), Obj(<<>>, AnyInt, 1, NONE),
+               \* only the additional members are constrained (the declared ones need no validation)
+               Obj(<<P("a", AnyStr, FALSE)>>, Str(0, 2, ""), 0, NONE), Obj(<<P("a", AnyStr, TRUE), P("b", AnyInt, FALSE)>>, IntS(10, NONE, FALSE, FALSE, NONE), 0, NONE),
+               Arr(Obj(<<P("a", AnyStr, FALSE)>>, Str(0, 2, ""), 0, NONE), 0, NONE, FALSE), Obj(<<P("a", Nullable(AnyStr), TRUE)>>, AT, 0, NONE), Obj(<<P("a", Nullable(AnyStr), FALSE)>>, AF, 0, NONE),
                Obj(<<P("a", Obj(<<P("b", AnyInt, TRUE)>>, AF, 0, NONE), TRUE)>>, AT, 0, NONE), Obj(<<P("a", Arr(AnyInt, 1, NONE, TRUE), TRUE), P("c", Bool, FALSE)>>, AT, 0, NONE),
                Nullable(Obj(<<PA>>, AF, 0, NONE)),
                Obj(<<P("a", Arr(AnyStr, 1, NONE, FALSE), FALSE), PBo>>, AT, 0, NONE), Obj(<<P("a", Nullable(Arr(AnyStr, 1, 2, FALSE)), TRUE)>>, AF, 0, NONE),
